@@ -13,6 +13,7 @@ package main
 // output (C06) := per op ok:<kidIsThumbprint 1|0|->|err ... " || reopen: " per key <get ok|fail>/<same key 1|0|-> ...
 
 import (
+	"math/big"
 	"github.com/hyperledger/aries-framework-go/component/kmscrypto/doc/util/kmsdidkey"
 
 	"bytes"
@@ -509,7 +510,28 @@ type kmsKey struct {
 // the worker process ran before (a byte counter shared by all cases wrapped to a seed from which no key can be made)
 var kmsImportCounter int
 
+// kmsShortCoord moves an EC key to the next scalar whose public point has a coordinate with a leading zero byte (1 key in
+// 128 has one): encoders that take coordinates as minimal big-endian bytes lose the padding of exactly these keys
+func kmsShortCoord(k *ecdsa.PrivateKey) *ecdsa.PrivateKey {
+	size := (k.Curve.Params().BitSize + 7) / 8
+	d := new(big.Int).Set(k.D)
+	x, y := k.X, k.Y
+	for len(x.Bytes()) == size && len(y.Bytes()) == size {
+		d.Add(d, big.NewInt(1))
+		x, y = k.Curve.ScalarBaseMult(d.Bytes())
+	}
+	return &ecdsa.PrivateKey{PublicKey: ecdsa.PublicKey{Curve: k.Curve, X: x, Y: y}, D: d}
+}
+
 func kmsImportable(kt string) (interface{}, bool) {
+	key, ok := kmsImportableRaw(kt)
+	if ek, isEC := key.(*ecdsa.PrivateKey); ok && isEC && kmsImportCounter%3 == 0 {
+		return kmsShortCoord(ek), true
+	}
+	return key, ok
+}
+
+func kmsImportableRaw(kt string) (interface{}, bool) {
 	kmsImportCounter++
 	h1 := sha256.Sum256([]byte(fmt.Sprintf("verif-import-key-%d-a", kmsImportCounter)))
 	h2 := sha256.Sum256([]byte(fmt.Sprintf("verif-import-key-%d-b", kmsImportCounter)))
